@@ -182,3 +182,112 @@ def build_stack(tree):
 
 
 TARGETS['TC03stack'] = {'file': 'image.py', 'build': build_stack}
+
+
+# ---------------------------------------------------------------------------------------------- wiring tables
+# Source text of the expressions that decide WHICH value goes WHERE (affine column -> attribute, attribute -> argument),
+# with single-assignment locals inlined so that renaming a local does not change the table.
+import copy
+import hashlib
+
+
+def _simple_assigns(fn):
+    """name -> value node for locals assigned exactly once by a plain `name = value`."""
+    cnt, val = {}, {}
+    for n in ast.walk(fn):
+        tg = []
+        if isinstance(n, ast.Assign):
+            for t in n.targets:
+                tg += [e.id for e in ast.walk(t) if isinstance(e, ast.Name)]
+            if len(n.targets) == 1 and isinstance(n.targets[0], ast.Name):
+                val[n.targets[0].id] = n.value
+        elif isinstance(n, (ast.AugAssign, ast.AnnAssign)) and isinstance(n.target, ast.Name):
+            tg = []                      # in-place normalisation (`v /= norm`) does not re-wire anything
+        elif isinstance(n, (ast.For, ast.comprehension)):
+            tg = [e.id for e in ast.walk(n.target) if isinstance(e, ast.Name)]
+            for t in tg:
+                cnt[t] = cnt.get(t, 0) + 5
+        for t in tg:
+            cnt[t] = cnt.get(t, 0) + 1
+    params = {a.arg for a in fn.args.args + fn.args.kwonlyargs}
+    return {k: v for k, v in val.items() if cnt.get(k) == 1 and k not in params}
+
+
+def _inline(fn, node, depth=6):
+    env = _simple_assigns(fn)
+
+    class T(ast.NodeTransformer):
+        def __init__(self, d):
+            self.d = d
+
+        def visit_Name(self, n):
+            if isinstance(n.ctx, ast.Load) and n.id in env and self.d > 0:
+                return T(self.d - 1).visit(copy.deepcopy(env[n.id]))
+            return n
+    return ast.unparse(T(depth).visit(copy.deepcopy(node)))
+
+
+def _kwargs_of_call(fn, callee, what, nth=0, count=1, depth=6):
+    calls = [n for n in ast.walk(fn) if isinstance(n, ast.Call) and ast.unparse(n.func).endswith(callee)]
+    calls.sort(key=lambda n: n.lineno)
+    if len(calls) != count:
+        raise Unsupported(f'{what}: expected {count} call(s) of {callee}, found {len(calls)}')
+    c = calls[nth]
+    if c.args:
+        raise Unsupported(f'{what}: positional arguments in the call of {callee}')
+    return [(k.arg, _inline(fn, k.value, depth)) for k in c.keywords]
+
+
+def _lean_str(x):
+    return '"' + x.replace('\\', '\\\\').replace('"', '\\"') + '"'
+
+
+def _table(name, rows, doc):
+    body = ',\n   '.join(f'({_lean_str(k)}, {_lean_str(v)})' for k, v in rows)
+    return f'/-- {doc} -/\ndef {name} : List (String × String) :=\n  [{body}]'
+
+
+def _return_inlined(fn, what):
+    r = [n for n in ast.walk(fn) if isinstance(n, ast.Return) and n.value is not None]
+    if len(r) != 1:
+        raise Unsupported(f'{what}: expected one return')
+    return _inline(fn, r[0].value)
+
+
+def build_wire_volume(tree):
+    """volume.py: which affine columns become orientation / spacings / positions, and how attributes become an affine"""
+    rows = []
+    for prop in ('direction_cosines', 'pixel_spacing', 'spacing_between_slices'):
+        rows.append((prop, _return_inlined(find_func(tree, '_VolumeBase.' + prop), prop)))
+    f = find_func(tree, '_VolumeBase.get_plane_positions')
+    calls = [n for n in ast.walk(f) if isinstance(n, ast.Call) and ast.unparse(n.func) == 'self.map_indices_to_reference']
+    if len(calls) != 1:
+        raise Unsupported('get_plane_positions: map_indices_to_reference call not found')
+    rows.append(('get_plane_positions', _inline(f, calls[0])))
+    f = find_func(tree, '_VolumeBase.get_pixel_measures')
+    rows += [('get_pixel_measures.' + k, v) for k, v in _kwargs_of_call(f, 'PixelMeasuresSequence', 'get_pixel_measures')]
+    rows.append(('get_plane_orientation', _return_inlined(find_func(tree, '_VolumeBase.get_plane_orientation'), 'get_plane_orientation')))
+    f = find_func(tree, 'VolumeGeometry.from_attributes')
+    rows += [('from_attributes.' + k, v) for k, v in _kwargs_of_call(f, 'create_affine_matrix_from_attributes', 'from_attributes')]
+    rows += [('from_attributes.cls.' + k, v) for k, v in _kwargs_of_call(f, 'cls', 'from_attributes')]
+    text = _table('wiringVolume', rows, 'volume.py: affine columns -> recorded orientation / spacings / plane positions, and '
+                                        'attributes -> affine (source text, single-assignment locals inlined)')
+    return text, hashlib.sha256(repr(rows).encode()).hexdigest()
+
+
+def build_wire_image(tree):
+    """image.py: the attributes handed to VolumeGeometry.from_attributes in the stacked, tiled and single-frame case"""
+    rows = []
+    f = find_func(tree, '_Image._get_stacked_volume_geometry')
+    rows += [('stacked.' + k, v) for k, v in _kwargs_of_call(f, 'VolumeGeometry.from_attributes', 'stacked geometry', depth=1)]
+    rows += [('stacked.get_volume_positions.' + k, v) for k, v in _kwargs_of_call(f, 'get_volume_positions', 'stacked geometry', depth=1)]
+    f = find_func(tree, '_Image._get_volume_geometry')
+    rows += [('tiled.' + k, v) for k, v in _kwargs_of_call(f, 'VolumeGeometry.from_attributes', 'tiled geometry', 0, 2)]
+    rows += [('single.' + k, v) for k, v in _kwargs_of_call(f, 'VolumeGeometry.from_attributes', 'single-frame geometry', 1, 2)]
+    text = _table('wiringImage', rows, 'image.py: the attributes handed to VolumeGeometry.from_attributes for stacked, tiled and '
+                                       'single-frame images (source text, single-assignment locals inlined)')
+    return text, hashlib.sha256(repr(rows).encode()).hexdigest()
+
+
+TARGETS['TC03wireV'] = {'file': 'volume.py', 'build': build_wire_volume}
+TARGETS['TC03wireI'] = {'file': 'image.py', 'build': build_wire_image}
